@@ -125,21 +125,32 @@ def cli_profile_exact(ctx):
                         d = r.choice(pk) if pk and r.random() < 0.8 else r.choice([x for x in c.meta['dirs'] if os.path.isdir(os.path.join(b, x)) and not OX.hidden(x)])
                         sub = r.choice(['', '', 'files', 'files/extra', 'files/extra/deep']) if d in pk else ''
                         os.makedirs(os.path.join(b, d, sub), exist_ok=True)
-                        with open(os.path.join(b, d, sub, 'added-%d' % r.randint(0, 9)), 'wb') as f:
-                            f.write(b'new content %d' % r.randint(0, 99))
+                        an = 'added-%d' % r.randint(0, 9)
+                        ad = b'new content %d' % r.randint(0, 99)
+                        with open(os.path.join(b, d, sub, an), 'wb') as f:
+                            f.write(ad)
+                        # the description of the case follows (replay, structural matching of listed findings)
+                        acc = d
+                        for comp in [x for x in sub.split('/') if x]:
+                            acc = acc + '/' + comp
+                            if c.tree.lookup(acc) is None:
+                                c.tree.add_dir(acc)
+                        if c.tree.lookup(acc + '/' + an) is None:
+                            c.tree.add_file(acc + '/' + an, ad)
+                        steps.append(['added', acc + '/' + an])
                     up = r.choice(['', r.choice(pk) if pk else ''])
                     rc2 = p_c18.run_cli(['update'] + argv0 + [os.path.join(b, up) if up else b], key)
                     steps.append(['update ' + (up or '<top>'), rc2])
                     if rc2 == ['exit', 0]:
                         rounds.append((up, files_of(ET.canon_files(ET.list_real_files(b)))))
                 vup = rounds[-1][0] if rounds else ''
-                vr = p_c18.run_cli(['verify', os.path.join(b, vup) if vup else b], key) if steps[-1][1] == ['exit', 0] else None
+                vr = p_c18.run_cli(['verify', os.path.join(b, vup) if vup else b], key) if [st for st in steps if st[0] != 'added'][-1][1] == ['exit', 0] else None
             finally:
                 sc.cleanup(b, s)
             n += 1
             profs[prof] = profs.get(prof, 0) + 1
             replay = {'meta': meta_of(c), 'profile': prof, 'hashes': hashes, 'steps': steps, 'tree': PT.describe(c.tree)}
-            bad = [st for st in steps if st[1] != ['exit', 0]]
+            bad = [st for st in steps if st[0] != 'added' and st[1] != ['exit', 0]]
             if bad:
                 st = bad[0]
                 if st[1][0] == 'exc' and st[1][1] != 'OSError':
